@@ -27,7 +27,7 @@ def main():
         return R.finish()
     cdir, harness, _ = st
     lines = []; meta = []
-    n = 12000 if thorough else 2500
+    n = 60000 if thorough else 2500
     big = 65536
     for fam in ('uri', 'iri'):
         g = Gen(random.Random(rnd.random()), fam)
